@@ -1749,7 +1749,6 @@ func ruleErrorsNotDropped(c *Ctx, rule string, fnNames ...string) {
 	}
 }
 
-
 func usesIn(f *Func, n ast.Node, obj types.Object) bool {
 	hit := false
 	ast.Inspect(n, func(z ast.Node) bool {
